@@ -13,8 +13,10 @@ import traceback
 
 VERIF = os.path.dirname(os.path.dirname(os.path.abspath(__file__)))
 REPO = os.environ.get("VERIF_REPO", "/repo")
-EVIDENCE_DIR = os.path.join(VERIF, "evidence")
-REPLAY_DIR = os.path.join(VERIF, "replays")
+_MUT = os.path.realpath(REPO) != "/repo"
+# demonstration runs against a mutant worktree never touch the real evidence
+EVIDENCE_DIR = os.path.join(VERIF, "evidence_mut" if _MUT else "evidence")
+REPLAY_DIR = os.path.join(VERIF, "replays_mut" if _MUT else "replays")
 FINDINGS_FILE = os.path.join(VERIF, "known_findings.json")
 SCHEMA_FILE = os.path.join(VERIF, "schema", "EVIDENCE.schema.json")
 
